@@ -317,6 +317,26 @@ def h_arity(E, idx):
         return type(e).__name__
 
 
+REAL_ONLY = ['arctan2(z, 1)', 'arctan2(1, z)', 'arctan2(z, z)', 'min(z, 1)', 'min(1, z)', 'max(z, 2)', 'max(1, 2, z)', 'floor(z)', 'ceil(z)', 'min(1, 2, 3, z)']
+COMPLEX_VALUES = [1j, 1 + 1j, 2 - 0.5j, -3j, 1 + 0j, np.complex128(0.5 + 2j)]
+
+
+def h_complex_args(E, idx):
+    """functions whose domain is the reals (ordering, rounding, the angle of a point): a complex argument - also one with zero imaginary part -
+    is outside the domain and must be a student-facing error, never a number"""
+    from mitxgraders import MatrixGrader
+    from mitxgraders.helpers.calc.expressions import evaluator, DEFAULT_SUFFIXES
+    from mitxgraders.exceptions import StudentFacingError
+    z = E.choice('z', COMPLEX_VALUES)
+    try:
+        v, _ = evaluator(REAL_ONLY[idx], {'z': z}, MatrixGrader.default_functions, DEFAULT_SUFFIXES)
+    except StudentFacingError as e:
+        E.check('complex-argument-to-real-only-function-is-student-facing-error', True)
+        return type(e).__name__
+    E.check('complex-argument-to-real-only-function-is-student-facing-error', False)
+    return repr(v)
+
+
 SHAPES = [(), (2,), (3,), (2, 2), (2, 3), (3, 3), (2, 2, 2), (3, 3, 3), (2, 2, 2, 2)]
 
 
@@ -378,6 +398,8 @@ def harnesses(tier):
     for name in sorted(MatrixGrader.default_functions):
         if name != 'factorial' and name != 'fact':
             add(h_shapes, 'shapes', dict(f=name), 'argument shapes (), 2, 3, 2x2, 2x3, 3x3, 2x2x2, 3x3x3, 2x2x2x2', validate=False)
+    for i in range(len(REAL_ONLY)):
+        add(h_complex_args, 'complex_args', dict(i=i), REAL_ONLY[i] + ' with 6 complex values', validate=False)
     add(h_constants, 'constants', {}, 'tables')
     for i in range(len(ARITY)):
         add(h_arity, 'arity', dict(i=i), ARITY[i][0], validate=False)
